@@ -80,6 +80,21 @@ CLAIMS = {
             "compares lines with the greedy first-fit reference, every word character with its cell, every joining space with the "
             "whitespace it replaces.",
             TRUST, "5/C16"),
+    "C02": ("TLA+ reference terminal (Term.tla) + FullscreenWindow model (FullscreenWin.tla): TLC model-checks all "
+            "Render/Resize sequences on small terminals (MC_Fullscreen), generates behaviours, and validates recorded "
+            "token streams of the real window (FullscreenTrace.tla)",
+            "The real window is driven through TLC-generated behaviours, all (render, resize?, render) triples over a small "
+            "line set and seeded longer histories on a pty-sized capture stream; TLC runs the recorded escape sequences "
+            "through the reference terminal and checks screen = array (clipped), cursor position and no scrolling after "
+            "every render; the design model proves the same for the implementation-shaped model with the CacheTruth invariant.",
+            TRUST + "Term.tla models xterm (pending wrap, BCE, alternate screen); a resize is modelled as junk in every cell.", "5/C02"),
+    "C07": ("TLA+ reference terminal with scrollback (Term.tla) + CursorAwareWindow model (CursorWin.tla): TLC design check "
+            "(MC_CursorWin), behaviour generation, trace validation of the real window's token streams (CursorTrace.tla)",
+            "Histories with 0..H+2 pre-existing lines, renders of height 0..H+3, both options; TLC checks that the line "
+            "sequence scrollback+screen keeps everything above the window, continues with the array rows then blanks, that "
+            "the scroll count and the return value are exactly what does not fit, and the cursor cell; every cursor report the "
+            "harness sends is cross-checked against the reference terminal.",
+            TRUST + "Rows are at most as wide as the terminal.", "5/C07"),
 }
 
 NOT_BUILT = "check not built yet at this commit (planned with the same TLA+ technique, see DESIGN.md section 5)"
